@@ -52,6 +52,11 @@ Next == /\ (OneStep => last = None)
            \/ \E day \in {-1, 0, 1, 2}, tt \in {"none", "midnight"} : FromDate(day, tt)
            \/ \E day \in {-1, 0, 1, 2}, tf \in {"none", "zero"}, dis \in Diss : FromBagDate(day, tf, dis)
 Spec == Init /\ [][Next]_vars
+\* the property-bag steps alone (C17: a zoned record reads only the fields it is given; absent time fields are zero, and so is a supplied zero)
+NextBag == /\ (OneStep => last = None)
+           /\ \/ \E day \in {-1, 0, 1, 2}, tf \in {"none", "zero"}, dis \in Diss : FromBagDate(day, tf, dis)
+              \/ \E w \in IWalls, dis \in {"compatible", "later"}, oo \in OffOpts : \E oc \in BagCands(cur, w) : FromBag(w, oc, dis, oo)
+SpecBag == Init /\ [][NextBag]_vars
 \* the text steps alone (C11: what is printed is the rounded value as its zone reads it)
 NextText == /\ (OneStep => last = None)
             /\ \E t \in TextInstants(cur), fd \in {0, 4, 5, 6}, unit \in {1, 60}, mode \in TextModes, via \in {"zoned", "instant"} : Text(t, fd, unit, mode, via)
